@@ -20,12 +20,13 @@ history (no bound anywhere):
 * `…_self_id`        self copy-assignment and self-swap return the identical slot contents;
 * `rotate_schedule_in_range`, `self_move_of_value_is_error`  the two facts the above rest on that are
                      worth stating on their own.
-* `alt_…_partial`, `alt_assign_own_counterexample`  the variant theorems exclude one operation, the
-                     converting assignment of a variant from its own live alternative
-                     (`v = get<index()>(v)`): the code destroys the alternative before copying from it
-                     (known finding F-C03-variant-assign-own-alternative); `xvalid` rejects exactly
-                     that operation and the counterexample theorem shows the model running into
-                     `useDead` on it.
+* `alt_assign_own_id` the converting assignment of a variant from its own live alternative
+                     (`v = v[index_v<index()>]`) is a copy self-assignment of the held object and
+                     returns the identical slot contents.  Before e7501ef the code destroyed the
+                     alternative and then copied from it (finding F-C03-variant-assign-own-alternative,
+                     now fixed); the former `alt_…_partial` / `alt_assign_own_counterexample` pair is
+                     replaced by the full-strength `alt_step_safe`, `alt_reach_inv`, `alt_history_safe`
+                     (`xvalid` excludes no operation any more).
 Proofs: TetlProofs/C03/Prim.lean, Rotate.lean, Vec.lean, VarFn.lean, Sets.lean.
 -/
 import TetlProofs.C03.Vec
@@ -148,7 +149,7 @@ example : histValid (svalid .fs 3) (sstep .fs .cm 3) (St.init 3 0 0)
 
 /-! ## variant, optional, expected -/
 
-theorem alt_step_safe_partial (k : Kind) (trk : Nat → Bool) (nalt : Nat) (s : St) (t : Bool) (op : XOp)
+theorem alt_step_safe (k : Kind) (trk : Nat → Bool) (nalt : Nat) (s : St) (t : Bool) (op : XOp)
     (hi : VarInv trk nalt s) (hv : xvalid trk nalt s t op = true) :
     ∃ s', xstep k trk s t op = .ok s' ∧ VarInv trk nalt s' :=
   xstep_inv k trk nalt s t op hi hv
@@ -157,14 +158,12 @@ example : VarInv (fun _ => true) 3 (xinit fun _ => true) ∧
     xvalid (fun _ => true) 3 (xinit fun _ => true) true (.emplaceMove 2 5) = true :=
   ⟨xinit_inv _ 3 (by decide), by decide⟩
 
-/-- the excluded class is not empty: on two default-constructed variants of instrumented alternatives the
-    converting assignment from the own alternative copies from storage it has just destroyed -/
-theorem alt_assign_own_counterexample :
-    xvalid (fun _ => true) 3 (xinit fun _ => true) false .assignOwn = false ∧
-    xstep .cm (fun _ => true) (xinit fun _ => true) false .assignOwn = .error (.useDead 0) :=
-  ⟨rfl, rfl⟩
+example : VarInv (fun _ => true) 3 (xinit fun _ => true) ∧
+    xvalid (fun _ => true) 3 (xinit fun _ => true) false (.assignCopy 0 5) = true ∧
+    xvalid (fun _ => true) 3 (xinit fun _ => true) false .assignOwn = true :=
+  ⟨xinit_inv _ 3 (by decide), by decide, by decide⟩
 
-theorem alt_reach_inv_partial {k : Kind} {trk : Nat → Bool} {nalt : Nat} (hn : 0 < nalt) {s : St}
+theorem alt_reach_inv {k : Kind} {trk : Nat → Bool} {nalt : Nat} (hn : 0 < nalt) {s : St}
     (h : XReach k trk nalt s) : VarInv trk nalt s :=
   xreach_inv hn h
 
@@ -172,7 +171,7 @@ theorem alt_finish_balanced (trk : Nat → Bool) (nalt : Nat) (s : St) (hi : Var
     ∃ s', xfinish trk s = .ok s' ∧ AllDead s'.mem ∧ s'.mem.cnt.constructed = s'.mem.cnt.d :=
   xfinish_ok trk nalt s hi
 
-theorem alt_history_safe_partial (k : Kind) (trk : Nat → Bool) (nalt : Nat) (ops : List (Bool × XOp)) (s : St)
+theorem alt_history_safe (k : Kind) (trk : Nat → Bool) (nalt : Nat) (ops : List (Bool × XOp)) (s : St)
     (hi : VarInv trk nalt s) (hv : histValid (xvalid trk nalt) (xstep k trk) s ops = true) :
     ∃ s' s'', runOps (xstep k trk) s ops = .ok s' ∧ VarInv trk nalt s' ∧
       xfinish trk s' = .ok s'' ∧ AllDead s''.mem ∧ s''.mem.cnt.constructed = s''.mem.cnt.d := by
@@ -193,10 +192,22 @@ example : histValid (xvalid (fun _ => true) 3) (xstep .mo fun _ => true) (xinit 
     [(false, .emplace 1 4), (true, .massign), (true, .swapSelf), (false, .emplaceMove 2 6), (false, .swap)] = true := by
   decide
 
+-- converting assignments onto the held alternative, onto another one, and from the own alternative
+example : histValid (xvalid (fun _ => true) 3) (xstep .cm fun _ => true) (xinit fun _ => true)
+    [(false, .assignCopy 0 4), (false, .assignMove 2 5), (false, .assignMove 2 6), (false, .assignOwn), (true, .mctor),
+     (false, .assignOwn), (false, .assignCopy 2 7)] = true := by
+  decide
+
 theorem alt_copy_assign_self_id (k : Kind) (trk : Nat → Bool) (nalt : Nat) (s : St) (t : Bool)
     (hi : VarInv trk nalt s) :
     ∃ s', xstep k trk s t .cassignSelf = .ok s' ∧ s'.mem.slots = s.mem.slots ∧ s'.a = s.a ∧ s'.b = s.b :=
   xcassignSelf_id k trk nalt s t hi
+
+/-- `v = v[index_v<index()>]` (converting assignment from the own live alternative) changes nothing -/
+theorem alt_assign_own_id (k : Kind) (trk : Nat → Bool) (nalt : Nat) (s : St) (t : Bool)
+    (hi : VarInv trk nalt s) :
+    ∃ s', xstep k trk s t .assignOwn = .ok s' ∧ s'.mem.slots = s.mem.slots ∧ s'.a = s.a ∧ s'.b = s.b :=
+  xassignOwn_id k trk nalt s t hi
 
 theorem alt_swap_self_id (k : Kind) (trk : Nat → Bool) (nalt : Nat) (s : St) (t : Bool)
     (hi : VarInv trk nalt s) :
